@@ -61,6 +61,7 @@ randomx_argon2_impl* randomx_argon2_impl_ssse3() {
 #include "blake2/blamka-round-ssse3.h"
 #include "blake2/blake2-impl.h"
 #include "blake2/blake2.h"
+#include "verif_hooks.h"
 
 static void fill_block(__m128i* state, const block* ref_block,
 	block* next_block, int with_xor) {
@@ -176,6 +177,7 @@ void randomx_argon2_fill_segment_ssse3(const argon2_instance_t* instance,
 				fill_block(state, ref_block, curr_block, 1);
 			}
 		}
+		RANDOMX_VERIF_YIELD(RANDOMX_VERIF_SITE_ARGON_BLOCK);
 	}
 }
 
